@@ -15,10 +15,18 @@ FINDINGS_FILE = os.path.join(ROOT, "known_findings.json")
 
 
 def load_findings():
-    if not os.path.exists(FINDINGS_FILE):
-        return {"findings": [], "fixed": []}
-    with open(FINDINGS_FILE) as f:
-        return json.load(f)
+    """known_findings.json plus per-property files findings/Cxx.json (same format); read-only at run time."""
+    out = {"findings": [], "fixed": []}
+    files = [FINDINGS_FILE] if os.path.exists(FINDINGS_FILE) else []
+    d = os.path.join(ROOT, "findings")
+    if os.path.isdir(d):
+        files += sorted(os.path.join(d, f) for f in os.listdir(d) if f.endswith(".json"))
+    for fn in files:
+        with open(fn) as f:
+            j = json.load(f)
+        out["findings"] += j.get("findings", [])
+        out["fixed"] += j.get("fixed", [])
+    return out
 
 
 def _match(sig: dict, rec: dict) -> bool:
